@@ -7,7 +7,7 @@ use crate::util::*;
 use crate::Args;
 use re::geom::{vertex, Tri};
 use re::math::vec::{vec2, Vec2};
-use re::render::clip::{view_frustum, ClipVert};
+use re::render::clip::{view_frustum, Clip, ClipPlane, ClipVert};
 use serde_json::{json, Value};
 use std::io::Write;
 
@@ -73,12 +73,24 @@ fn bits(t: &Tri<CV>) -> Vec<u32> {
         .collect()
 }
 
-fn clip(ts: &[Tri<CV>]) -> Option<Vec<Tri<CV>>> {
+/// Plane orders: 0 = view_frustum::clip; k > 0 = the public Clip::clip with the six frustum
+/// planes handed over in another order (the intersection of half-spaces does not depend on it).
+const ORDERS: [[usize; 6]; 4] = [[0, 1, 2, 3, 4, 5], [5, 4, 3, 2, 1, 0], [2, 3, 4, 5, 0, 1], [4, 0, 5, 1, 3, 2]];
+
+fn clip_ord(ts: &[Tri<CV>], ord: usize) -> Option<Vec<Tri<CV>>> {
     guard(|| {
         let mut out = vec![];
-        view_frustum::clip(ts, &mut out);
+        if ord == 0 {
+            view_frustum::clip(ts, &mut out);
+        } else {
+            let planes: Vec<ClipPlane> = ORDERS[ord % ORDERS.len()].iter().map(|&i| view_frustum::PLANES[i].clone()).collect();
+            ts.clip(&planes, &mut out);
+        }
         out
     })
+}
+fn clip(ts: &[Tri<CV>]) -> Option<Vec<Tri<CV>>> {
+    clip_ord(ts, 0)
 }
 
 pub fn exec(case: &Value) -> Value {
@@ -87,7 +99,8 @@ pub fn exec(case: &Value) -> Value {
     let (tri, raw) = mk_tri(&case["t"], &case["a"], scale);
     let mut e = case.clone();
     let o = e.as_object_mut().unwrap();
-    let single = clip(std::slice::from_ref(&tri));
+    let ord = case.get("po").and_then(|v| v.as_u64()).unwrap_or(0) as usize;
+    let single = clip_ord(std::slice::from_ref(&tri), ord);
     let Some(single) = single else {
         o.insert("panic".into(), json!(1));
         o.insert("out".into(), json!([]));
@@ -109,12 +122,12 @@ pub fn exec(case: &Value) -> Value {
     let mut expect: Vec<Vec<u32>> = vec![];
     let mut ok_singles = true;
     for t in &batch {
-        match clip(std::slice::from_ref(t)) {
+        match clip_ord(std::slice::from_ref(t), ord) {
             Some(r) => expect.extend(r.iter().map(bits)),
             None => ok_singles = false,
         }
     }
-    let batch_ok = match clip(&batch) {
+    let batch_ok = match clip_ord(&batch, ord) {
         Some(r) => ok_singles && r.iter().map(bits).collect::<Vec<_>>() == expect,
         None => false,
     };
@@ -212,6 +225,8 @@ pub fn gen(args: &Args, out: &mut dyn Write) {
         o.insert("pos".into(), json!(rng.below(nb as u64 + 1)));
         // homogeneous scale 2^sc of the whole call (tiny, ordinary and large coordinates)
         o.insert("sc".into(), json!([0i64, 0, -30, 0, 20, -12][(i % 6) as usize]));
+        // which entry point / plane order (every 5th call: the public Clip::clip with reordered planes)
+        o.insert("po".into(), json!(if i % 5 == 4 { 1 + (i / 5) % 3 } else { 0 }));
         writeln!(out, "{c}").unwrap();
     }
 }
